@@ -122,4 +122,34 @@ SpecializeOutcomes(d, P, p) ==
   IN IF cand = {} THEN {[child |-> "", faults |-> {}, val |-> NoneV]}
      ELSE {[child |-> X, faults |-> Down(d, P, X, p).faults, val |-> Down(d, P, X, p).val] : X \in cand}
 
+(* ------------------------- Python API binding -------------------------- *)
+(* Guide (python): a packet is parsed from its root type; the result is the *)
+(* most derived declaration whose constraints hold and whose fields parse   *)
+(* (children tried in declaration order); if a matching child fails to      *)
+(* parse, the nearest ancestor that parses is returned.                     *)
+(* Guide/binding: a child all of whose fields are payload/body (or that has  *)
+(* none) is an alias: it is transparent, its own children are tried in its   *)
+(* place and it is never itself the result.                                  *)
+IsAliasDecl(decl) == \A i \in 1..Len(decl.fields) : IsPayloadField(decl.fields[i])
+
+RECURSIVE SpecializedChildren(_, _, _)
+SpecializedChildren(d, T, fuel) ==
+  IF fuel = 0 THEN <<>>
+  ELSE LET kids == ChildSeq(d, T)
+       IN Concat([k \in 1..Len(kids) |->
+                    IF IsAliasDecl(DeclOf(d, kids[k])) THEN SpecializedChildren(d, kids[k], fuel - 1)
+                    ELSE <<kids[k]>>])
+
+RECURSIVE PyDescend(_, _, _, _)
+PyDescend(d, T, val, fuel) ==
+  LET kids == SpecializedChildren(d, T, 6)
+      ok == SelectSeq(kids, LAMBDA X : Down(d, T, X, val).faults = {})
+  IN IF fuel = 0 \/ ok = <<>> THEN [cls |-> T, val |-> val]
+     ELSE PyDescend(d, ok[1], Down(d, T, ok[1], val).val, fuel - 1)
+
+PyParse(d, R, b) ==
+  LET r == DecodeFull(d, R, b)
+  IN IF r.faults # {} THEN [faults |-> r.faults, cls |-> "", val |-> NoneV]
+     ELSE LET x == PyDescend(d, R, r.val, 6) IN [faults |-> {}, cls |-> x.cls, val |-> x.val]
+
 =============================================================================
